@@ -180,6 +180,33 @@ class Harness:
         return {"path": outp, "of": m["seeds"], "lines": m["trace_lines"]}
 
 
+def _short(line):
+    """Compact form of a recorded trace line for messages."""
+    try:
+        e = json.loads(line)
+    except Exception:
+        return line[:200]
+    a = e.get("a")
+    if a == "Done":
+        r = e["res"]
+        return "Done(call %d) = {%s c=%d s=%d key=%s}" % (e["c"], r["st"], r["c"], r["s"], r["key"])
+    if a in ("Out", "SEmit"):
+        return "%s(call %d%s, item %s)" % (a, e["c"], ", shard %d" % e["s"] if a == "SEmit" else "", e["key"])
+    if a == "Batch":
+        return "Batch(shard %d/%s: puts/gets %s deletes %s delete-ranges %s)" % (e["s"], e["k"], e["p"], e["d"], e["r"])
+    if a == "Issue":
+        return "Issue(call %d: %s)" % (e["c"], e["t"])
+    if a in ("Respond", "Fail"):
+        return "%s(shard %d/%s)" % (a, e["s"], e["k"])
+    if a == "SEnd":
+        return "SEnd(call %d, shard %d, %s)" % (e["c"], e["s"], e["how"])
+    if a == "Closed":
+        return "Closed(call %d)" % e["c"]
+    if a == "End":
+        return "End (a call is missing its completion)"
+    return a or line[:200]
+
+
 def _panic_head(stderr):
     ls = stderr.splitlines()
     for i, l in enumerate(ls):
@@ -200,7 +227,7 @@ def _tlc_trace(ctx, path, label):
     raise vf.Inconclusive("trace validation failed without a verdict:\n" + "\n".join(r.out.splitlines()[-30:]))
 
 
-def _validate(ctx, tf, label, rerun):
+def _validate(ctx, tf, label, rerun, stop=lambda: False):
     """tf = {path, of, lines}: concatenated traces.  TLC validates them; a rejected trace is re-executed
     (rerun(id) -> fresh trace file or {'crash':..}) and only believed when it is rejected again.
     Returns (accepted, [(id, line_no, line, text)])."""
@@ -211,7 +238,7 @@ def _validate(ctx, tf, label, rerun):
         pos += n
     accepted, bad, first = 0, [], 0
     rounds = 0
-    while first < len(starts) and rounds < 4:
+    while first < len(starts) and rounds < 4 and not stop():
         rounds += 1
         part = os.path.join(ctx.sub("tv"), "%s-%d.ndjson" % (label, rounds))
         with open(part, "w") as f:
@@ -238,15 +265,16 @@ def _validate(ctx, tf, label, rerun):
                 break
             rejected_again += 1
             fl = open(fresh["path"]).read().splitlines()
-            detail = "re-execution rejected at its line %d: %s" % (hw2, fl[min(hw2, len(fl)) - 1][:300])
+            detail = "re-execution rejected at its event #%d %s" % (hw2 - 1, _short(fl[min(hw2, len(fl)) - 1]))
         if rejected_again == 2:
             off = absline - starts[k]
             bad.append((ident, off, lines[min(absline, len(lines) - 1)], detail,
                         lines[starts[k]:starts[k] + tf["lines"][k]]))
+            stop(1)
         else:
             ctx.notes["unreproduced_trace_rejections"] = ctx.notes.get("unreproduced_trace_rejections", 0) + 1
         first = k + 1
-        if len(bad) >= 5:
+        if len(bad) >= 3:
             break
     return accepted, bad
 
@@ -266,6 +294,8 @@ def run(ctx):
     built = {}
     suffix = "quick" if quick else "thorough"
     law_cfgs = ["cb-write-%s.cfg" % suffix, "cb-read-%s.cfg" % suffix, "cb-read2-%s.cfg" % suffix, "cb-stream-%s.cfg" % suffix]
+    if not quick:
+        law_cfgs += ["cb-write4-thorough.cfg", "cb-mixed-thorough.cfg"]
     per = max(2, ctx.cores // len(law_cfgs))
 
     # 1. the model's own laws (exhaustive), the harness build and the exports run side by side
@@ -282,7 +312,7 @@ def run(ctx):
 
     # 2. spec -> code
     step_cfgs = ["cb-replay-write-steps.cfg", "cb-replay-read-steps.cfg", "cb-replay-stream-steps.cfg"]
-    nruns = 300 if quick else 3000
+    nruns = 300 if quick else 6000
 
     def steps(cfg):
         return lambda: _export(ctx.tlc("ClientBatchMC", cfg, workers=max(2, ctx.cores // 4), label="exp-" + cfg[10:-4]), "STEP")
@@ -338,8 +368,13 @@ def run(ctx):
     if chosen:
         ctx.samples.append({"kind": "spec behaviour replayed on the real client", "behaviour": _describe(json.loads(chosen[0]))})
 
+    if nviol >= 12:
+        ctx.log("the tree is broken (%d reproduced violations): skipping the random walks" % nviol)
+        ctx.notes["exhaustive"] = True
+        return
+
     # 3. code -> spec: recorded executions judged by TLC
-    ndrive = 120 if quick else 1500
+    ndrive = 360 if quick else 3000
     dseed = ctx.seed * 7919
     dparts = 3 if quick else 8
     dr = _parallel([(lambda i=i: h.drive(dseed + i, ndrive // dparts, "drive%d" % i)) for i in range(dparts)])
@@ -363,7 +398,13 @@ def run(ctx):
                     return None          # it deviated / diverged this time: handled by the replay path
                 return r["traces"][0]
             jobs.append((tf, "tv-replay%d-%d" % (ci, ti), rerun_replay, ("replay", ci)))
-    outs = _parallel([(lambda j=j: _validate(ctx, j[0], j[1], j[2])) for j in jobs])
+    found = [nviol]
+
+    def stop(add=0):
+        # a broken tree must stay fast: enough is enough, and never run into the budget
+        found[0] += add
+        return found[0] >= 12 or ctx.left() < 75
+    outs = _parallel([(lambda j=j: _validate(ctx, j[0], j[1], j[2], stop)) for j in jobs])
     nlines = 0
     for j, (acc, bad) in zip(jobs, outs):
         ctx.traces_validated += acc
@@ -378,7 +419,7 @@ def run(ctx):
                        "trace": whole}
             p = ctx.save_replay("trace-%d.json" % nviol, obj)
             ctx.violation("execution of the real client is not a behaviour of ClientBatch.tla (rejected by TLC in 3 of 3 "
-                          "executions) at recorded event #%d %s; %s" % (off, line[:260], detail), p)
+                          "executions) at recorded event #%d %s; %s" % (off, _short(line), detail), p)
     ctx.log("%d recorded executions (%d events) accepted by ClientBatchTrace" % (ctx.traces_validated, nlines))
     if dr and "path" in dr[0]:
         with open(dr[0]["path"]) as f:
@@ -423,7 +464,7 @@ def replay(ctx, path):
             ctx.log("re-executed walk is accepted by ClientBatchTrace")
         else:
             ls = open(d["path"]).read().splitlines()
-            ctx.violation("re-executed walk rejected by ClientBatchTrace at event #%d %s" % (hw - 1, ls[min(hw, len(ls)) - 1][:300]), path)
+            ctx.violation("re-executed walk rejected by ClientBatchTrace at event #%d %s" % (hw - 1, _short(ls[min(hw, len(ls)) - 1])), path)
         return
     line = json.dumps(obj["behaviour"])
     a = h.replay_chunk([line], "replay")
@@ -443,4 +484,4 @@ def replay(ctx, path):
             ctx.log("replayed behaviour conforms step by step and its recording is accepted by ClientBatchTrace")
         else:
             ls = open(tf["path"]).read().splitlines()
-            ctx.violation("recording rejected by ClientBatchTrace at event #%d %s" % (hw - 1, ls[min(hw, len(ls)) - 1][:300]), path)
+            ctx.violation("recording rejected by ClientBatchTrace at event #%d %s" % (hw - 1, _short(ls[min(hw, len(ls)) - 1])), path)
